@@ -600,21 +600,27 @@ async fn exec_op(env: &Arc<Env>, c: u16, i: u16, op: Op, slots: &mut Vec<Slot>) 
             rt::sleep(d).await;
             end(c, i, Res::Ok);
         }
-        Op::AwaitLog { tag, what, count } => {
-            begin(c, i, OpK::AwaitLog, Hk::None, Path::NA, tag, 0, 0, what as u64);
+        Op::AwaitLog { tag, what, count } | Op::AwaitLogSync { tag, what, count } => {
+            let sync = matches!(op, Op::AwaitLogSync { .. });
+            begin(c, i, if sync { OpK::AwaitLogSync } else { OpK::AwaitLog }, Hk::None, Path::NA, tag, 0, 0, what as u64);
             let mut ok = false;
             for _ in 0..1500 {
                 let n = log::count(|e| match (&e.k, what) {
                     (K::CbOut { cb: crate::log::Cb::Stopped, tag: t, .. }, 0) => *t == tag,
                     (K::HIn { mk: crate::log::Mk::Tick, tag: t, .. }, 1) => *t == tag,
                     (K::Exec { actor_tag, .. }, 2) => *actor_tag == tag,
+                    (K::CbOut { cb: crate::log::Cb::Started, tag: t, .. }, 3) => *t == tag,
                     _ => false,
                 });
                 if n >= count as usize {
                     ok = true;
                     break;
                 }
-                rt::sleep(2).await;
+                if sync {
+                    std::thread::sleep(std::time::Duration::from_millis(2));
+                } else {
+                    rt::sleep(2).await;
+                }
             }
             end(c, i, if ok { Res::Ok } else { Res::Err("timeout") });
         }
